@@ -203,23 +203,40 @@ class Execution:
         return self.preemptions_before(len(self.choices))
 
 
-def _make_tracer(s, tid, watched, opcodes):
+def _make_tracer(s, tid, watched, opcodes, calls=False):
+    """`calls`: additionally a scheduling point at the entry of and the return from every Python
+    function of an UNWATCHED file that is called from a watched frame - the switch then happens
+    in the middle of the calling source line (after the operands were read, before/after the
+    callee ran).  Deterministic, unlike instruction events."""
     def local(frame, event, arg):
         if event == ("opcode" if opcodes else "line"):
             s.point(tid)
         return local
 
+    def callee(frame, event, arg):
+        if event == "return":
+            s.point(tid)
+        return callee
+
     def glob(frame, event, arg):
-        if event == "call" and frame.f_code.co_filename in watched:
-            if opcodes:
-                frame.f_trace_opcodes = True
-            return local
+        if event == "call":
+            if frame.f_code.co_filename in watched:
+                if opcodes:
+                    frame.f_trace_opcodes = True
+                return local
+            if calls:
+                back = frame.f_back
+                if back is not None and back.f_code.co_filename in watched:
+                    frame.f_trace_lines = False
+                    s.point(tid)
+                    return callee
         return None
 
     return glob
 
 
-def run_once(bodies, prefix, shared, watched, opcodes=False, timeout=20.0, expect=None):
+def run_once(bodies, prefix, shared, watched, opcodes=False, timeout=20.0, expect=None,
+             calls=False):
     """Run the thread bodies (callables taking `shared`) under the schedule `prefix` (then choice
     0).  Returns an Execution."""
     n = len(bodies)
@@ -231,7 +248,7 @@ def run_once(bodies, prefix, shared, watched, opcodes=False, timeout=20.0, expec
         res = None
         try:
             s._wait(i)
-            sys.settrace(_make_tracer(s, i, watched, opcodes))
+            sys.settrace(_make_tracer(s, i, watched, opcodes, calls))
             try:
                 res = ("ok", bodies[i](shared))
             finally:
